@@ -267,12 +267,22 @@ func vfH_C15_unlock() {
 	key := vfKey(1)
 	v0 := vfBytes("v0", vfRange("n0", 1, 3))
 	c := env.newCmd(protocol.COMMAND_LOCK, key, vfLockId(1))
-	c.Flag, c.Count, c.Rcount, c.Expried, c.ExpriedFlag = protocol.LOCK_FLAG_CONTAINS_DATA, 0xffff, 3, 100, 0x0200
-	c.Data = protocol.NewLockCommandDataSetData(v0)
+	c.Count, c.Rcount, c.Expried, c.ExpriedFlag = 0xffff, 3, 100, 0x0200
+	// the first lock of that LockId carries the initial value, or is a plain lock (then the other
+	// holder sets the initial value): what a later request of the LockId may carry must not depend on it
+	firstPlain := vfChoice("firstPlain", 2) == 1
+	if !firstPlain {
+		c.Flag = protocol.LOCK_FLAG_CONTAINS_DATA
+		c.Data = protocol.NewLockCommandDataSetData(v0)
+	}
 	env.lock(0, c)
 	// a second holder keeps the key (and its value) alive whatever the first one does
 	k := env.newCmd(protocol.COMMAND_LOCK, key, vfLockId(9))
 	k.Count, k.Expried, k.ExpriedFlag = 0xffff, 100, 0x0200
+	if firstPlain {
+		k.Flag = protocol.LOCK_FLAG_CONTAINS_DATA
+		k.Data = protocol.NewLockCommandDataSetData(v0)
+	}
 	env.lock(0, k)
 	cur := vfValue{kind: vfVBytes, b: v0}
 	opData := func(name string) (*protocol.LockCommandData, vfValue) {
